@@ -144,7 +144,7 @@ func init() {
 		Title: "Global positions map one-to-one onto file, line and column",
 		Plan: func(tier string, seed int64) []run.Job {
 			var jobs []run.Job
-			n, per := 32, 1500
+			n, per := 32, 5000
 			if tier == "thorough" {
 				n, per = 128, 8000
 			}
